@@ -125,7 +125,7 @@ def assign_case(draw, tier="quick"):
     m = len(idxs) if idxs is not None else draw(st.integers(0, 3))
     # value
     cls = draw(st.sampled_from(["same", "same", "narrower", "wider", "wider", "incompatible", "none", "mixed_wider",
-                                "none_then_wider", "wider_then_none", "twin"]))
+                                "none_then_wider", "wider_then_none", "twin", "none_then_wider", "wider_then_none"]))
     vkind = kind
 
     def elems(k_):
